@@ -866,6 +866,12 @@ def r6_visit_dispatch(ctx, rep, R='C20.R6'):
             elif M:
                 verdict, test_node = (None, 'the sentinel is compared with == or the return '
                                       'branch is taken when the entry is NOT the sentinel'), n
+            elif isinstance(b, ast.Constant) and pol:
+                verdict, test_node = ('bad', '%s: the return visit is marked by the constant %r, which shares its '
+                                      'value space with the nodes (with hashable nodes %r is a legitimate '
+                                      'node): a scheduled first visit of that node is taken for the return '
+                                      'visit of the current ancestor, which is closed with its neighbours '
+                                      'unprocessed' % (norm(n.ast), b.value, b.value)), n
             elif is_node_valued(b, n.id) and pol:
                 verdict, test_node = ('bad', '%s: the work-list top is compared with the node %s; a '
                                       'neighbour scheduled on top of an open node that equals it '
